@@ -142,6 +142,69 @@ func poolHoled(allRotations bool, cfg2 *geometry.IndexOptions) []*shp {
 	return out
 }
 
+// poolHoled2: polygons with two holes (both orders) against polygons with one
+// hole, all axis-parallel boxes with integer corners inside a 6x6 square:
+// hole-in-hole, hole-over-body and every boundary-contact configuration of
+// the polygon-contains-polygon hole rules.
+func poolHoled2(cfg2 *geometry.IndexOptions) (as, bs []*shp) {
+	box := func(x0, y0, x1, y1 int64) []exact.P {
+		return P2(x0, y0, x1, y0, x1, y1, x0, y1, x0, y0)
+	}
+	type cell struct{ x, y int64 }
+	var cells []cell
+	for x := int64(1); x <= 4; x++ {
+		for y := int64(1); y <= 4; y++ {
+			cells = append(cells, cell{x, y})
+		}
+	}
+	ext := box(0, 0, 6, 6)
+	for _, c1 := range cells {
+		for _, c2 := range cells {
+			if abs64i(c1.x-c2.x) < 2 && abs64i(c1.y-c2.y) < 2 {
+				continue // same, overlapping or touching cells
+			}
+			if (c1.x+c1.y+c2.x)%2 != 0 {
+				continue // thin the family (every second pair)
+			}
+			e := &exact.Shape{Kind: exact.KPoly, Ext: ext, Holes: [][]exact.P{box(c1.x, c1.y, c1.x+1, c1.y+1), box(c2.x, c2.y, c2.x+1, c2.y+1)}}
+			s := mkShp(e, cfg2)
+			s.tag = "two-holes"
+			as = append(as, s)
+		}
+	}
+	for x0 := int64(0); x0 <= 6; x0++ {
+		for x1 := x0 + 3; x1 <= 6; x1++ {
+			for y0 := int64(0); y0 <= 6; y0++ {
+				for y1 := y0 + 3; y1 <= 6; y1++ {
+					for hx0 := x0 + 1; hx0 < x1-1; hx0++ {
+						for hx1 := hx0 + 1; hx1 < x1; hx1++ {
+							for hy0 := y0 + 1; hy0 < y1-1; hy0++ {
+								for hy1 := hy0 + 1; hy1 < y1; hy1++ {
+									if (x0+y0+hx0+hy1)%3 != 0 {
+										continue // thin the family
+									}
+									e := &exact.Shape{Kind: exact.KPoly, Ext: box(x0, y0, x1, y1), Holes: [][]exact.P{box(hx0, hy0, hx1, hy1)}}
+									s := mkShp(e, cfg2)
+									s.tag = "one-hole"
+									bs = append(bs, s)
+								}
+							}
+						}
+					}
+				}
+			}
+		}
+	}
+	return
+}
+
+func abs64i(a int64) int64 {
+	if a < 0 {
+		return -a
+	}
+	return a
+}
+
 func libIntersects(a, b geometry.Geometry) bool {
 	switch v := b.(type) {
 	case geometry.Point:
@@ -291,7 +354,9 @@ type pools struct {
 	points, rects, lines, polys, holed []*shp
 	// partners of the holed polygons
 	hPoints, hRects, hLines, hPolys []*shp
-	desc                            map[string]any
+	// two-hole polygons x one-hole polygons
+	holed2A, holed2B []*shp
+	desc             map[string]any
 }
 
 func altCfg(i int) *geometry.IndexOptions {
@@ -319,6 +384,9 @@ func buildPools(thorough bool) *pools {
 	p.hLines = append(p.hLines, poolLines(3, 1, 3, idxCfgs[1].Opts)...)
 	p.hPolys = poolPolys(3, 1, 4, idxCfgs[2].Opts)
 	p.hPolys = append(p.hPolys, poolPolys(3, 0, 4, idxCfgs[2].Opts)...)
+	p.holed2A, p.holed2B = poolHoled2(idxCfgs[2].Opts)
+	p.desc["two_hole_polys"] = len(p.holed2A)
+	p.desc["one_hole_partner_polys"] = len(p.holed2B)
 	p.desc["points"] = len(p.points)
 	p.desc["rects"] = len(p.rects)
 	p.desc["lines"] = len(p.lines)
@@ -344,7 +412,7 @@ func forPairs(r *rt.Run, as, bs []*shp, same bool, fn func(a, b *shp, w *rt.Work
 
 // allPairs runs fn on every kind combination of the tier's pools.
 func allPairs(r *rt.Run, p *pools, fn func(a, b *shp, w *rt.Worker)) {
-	for _, pl := range [][]*shp{p.points, p.rects, p.lines, p.polys, p.holed} {
+	for _, pl := range [][]*shp{p.points, p.rects, p.lines, p.polys, p.holed, p.holed2A, p.holed2B} {
 		r.States.Add(int64(2 * len(pl)))
 		for _, s := range pl {
 			r.Trans.Add(int64(len(s.E.Skeleton())))
@@ -364,4 +432,6 @@ func allPairs(r *rt.Run, p *pools, fn func(a, b *shp, w *rt.Worker)) {
 	forPairs(r, p.holed, p.hRects, false, fn)
 	forPairs(r, p.holed, p.hLines, false, fn)
 	forPairs(r, p.holed, p.hPolys, false, fn)
+	forPairs(r, p.holed2A, p.holed2B, false, fn)
+	forPairs(r, p.holed2A, p.holed2A, true, fn)
 }
